@@ -425,8 +425,8 @@ def pouDup (P : Project) (d : Decl) (n : Name) : Bool :=
 /-- The runtime keeps program instances in its global variable table, while the analysis declares them
 in the CONFIGURATION scope: a global symbol and a program instance with the same name collide at run time. -/
 def instClash (P : Project) (d : Decl) (n : Name) : Bool :=
-  (d.scope == 0 && P.decls.any (fun c => c.kind == .inst && eqv c.name n)) ||
-  (d.kind == .inst && P.decls.any (fun c => c.scope == 0 && c.id != d.id && eqv c.name n))
+  (d.scope == 0 && P.decls.any (fun c => c.kind == .inst && (eqv c.name n || eqv c.name d.name))) ||
+  (d.kind == .inst && P.decls.any (fun c => c.scope == 0 && c.id != d.id && (eqv c.name n || eqv c.name d.name)))
 
 /-- indices of type-name occurrences whose plain scope lookup finds a non-type symbol (a variable
 named like the type): `resolve_type_symbol` falls back to the type table, the unused-symbol pass does not -/
